@@ -24,7 +24,7 @@ from .harness import Run
 GROUPS = {"g": None, "g2": None, "h": "g", "h2": "g"}
 PLACES = [None, "g", "g2", "h", "h2"]
 TYPES = {"T": "time-based", "E": "event-based", "H": "hybrid"}
-ATTRS = {"T": ["mi", "po"], "E": ["ti", "eo"], "H": ["mi", "ti", "po", "eo"]}
+ATTRS = {"T": ["mi", "po"], "E": ["ti", "ti2", "eo"], "H": ["mi", "ti", "ti2", "po", "eo"]}
 UNKNOWN = "zz"
 
 
@@ -52,7 +52,7 @@ def is_trigger_input(t, attr, any_inputs):
         return False
     if t == "E":
         return True
-    return attr == "ti"
+    return attr in ("ti", "ti2")
 
 
 def must_raise(st, dt, sg, dg, sa, da, shift, weak, init, any_inputs):
